@@ -143,6 +143,9 @@ def obligations(tier: str):
             add(f"grow_family{k}_d{d}", fixture="family", index=k, creator="grow", max_depth=d, timeout=200)
         if T:
             add(f"pigrow_family{k}_d3", fixture="family", index=k, creator="pi", max_depth=3, timeout=200)
+    # a production supplied without its intermediate abstract parent
+    add("grow_f16neg_d3", fixture="f16", grammar_fn="grammar_neg", classes=["Lit", "Neg"], creator="grow", max_depth=3)
+    add("grow_f16_d2", fixture="f16", creator="grow", max_depth=2)
     add("pigrow_f3_d3", fixture="f3", creator="pi", max_depth=3)
     add("pigrow_f4_d3", fixture="f4", creator="pi", max_depth=3)
     return [o for o in obs if o is not None]
